@@ -160,7 +160,7 @@ def main():
             "enable": "the harness crate /verif/harness depends on alpenglow with features [test-utils, verif-hooks] (path dependency on /repo), built with --cfg tokio_unstable",
             "baseline_off_cmd": "cd /repo && (cargo nextest run --workspace --no-fail-fast --test-threads 8 --offline || cargo test --workspace --no-fail-fast --offline)",
             "source_commits": [c.split()[0] for c in hooks_commits],
-            "add_only": True,
+            "add_only": False,
         },
         "engines": [{
             "name": "verif-engine",
